@@ -157,6 +157,11 @@ fn linux_reflink(src: &PathAndMetadata, dest: &PathAndMetadata, log: &dyn Log) -
                     }
                 }
             }
+            // Putting the data back has changed the modification time of the file.
+            // The file has not been processed, it must look the way it looked before.
+            if let Err(e) = restore_metadata(&std_link, &dest.metadata, Restore::TimestampOnly) {
+                log.warn(format!("Failed to keep metadata for {dest}: {e}"))
+            }
             Err(e)
         }
         Ok(ok) => {
